@@ -14,7 +14,8 @@ use serde_json::json;
 pub struct Case {
     pub fi: usize,
     pub v: ND,
-    /// 0 = the formatter's own text, 1 = token printer with derived-copula sugar
+    /// 0 = the enum formatter's own text, 1 = token printer with derived-copula sugar,
+    /// 2 = the LEXICAL formatter on the arity-valid lexical mirror (number / stamp spelling variants)
     pub source: u8,
     pub tape: Vec<u8>,
 }
@@ -61,6 +62,13 @@ pub fn check(sh: &Shared, c: &Case) -> Check {
             Ok(s) => s,
             Err(p) => fail!("format:panic", "format_narsese panicked: {p}"),
         }
+    } else if c.source == 2 {
+        sh.class("source/lexical-formatter");
+        let lexv = crate::lexgen::lex_of_nd(fi, &c.v, &c.tape).to_lex();
+        match guard(|| fmts::l(fi).format_narsese(&lexv)) {
+            Ok(s) => s,
+            Err(p) => fail!("format:panic", "lexical format_narsese panicked: {p}"),
+        }
     } else {
         // sanity gate: my plain rendition must equal the formatter's output exactly
         match guard(|| printer::gate_exact(fi, &v)) {
@@ -82,7 +90,7 @@ pub fn check(sh: &Shared, c: &Case) -> Check {
     };
     if nontrivial {
         sh.nontrivial(fp(&(fi, &text)));
-        sh.sample(&format!("{}/{}", if c.source == 0 { "formatter" } else { "sugar" }, fmts::FMT_NAMES[fi]), || json!({"format": fmts::FMT_NAMES[fi], "text": text}));
+        sh.sample(&format!("{}/{}", match c.source { 0 => "formatter", 1 => "sugar", _ => "lexical-formatter" }, fmts::FMT_NAMES[fi]), || json!({"format": fmts::FMT_NAMES[fi], "text": text}));
     }
     c.v.term().visit(&mut |d| {
         if !d.k.is_atom() {
@@ -107,7 +115,7 @@ fn sugar_friendly(fi: usize) -> BoxedStrategy<D> {
 }
 
 pub fn strategy() -> BoxedStrategy<Case> {
-    gen::fmt_and(|fi| (gen::narsese_with(sugar_friendly(fi)), 0u8..2, gen::tape()).boxed())
+    gen::fmt_and(|fi| (gen::narsese_with(sugar_friendly(fi)), 0u8..3, gen::tape()).boxed())
         .prop_map(|(fi, (v, source, tape))| Case { fi, v, source, tape })
         .boxed()
 }
@@ -116,8 +124,8 @@ pub fn small_scope() -> Vec<Case> {
     // every constructor once per format and source, flat operands
     let mut out = vec![];
     for (fi, nd) in crate::props::c01::small_scope() {
-        for source in 0..2u8 {
-            out.push(Case { fi, v: nd.clone(), source, tape: vec![1] });
+        for source in 0..3u8 {
+            out.push(Case { fi, v: nd.clone(), source, tape: vec![1, 2, 3] });
         }
     }
     out
@@ -144,7 +152,7 @@ pub fn streams() -> Vec<Box<dyn AnyStream>> {
 
 pub const PROP: Prop = Prop {
     id: "C03",
-    rule: "cases = (format, well-formed enum value, source, tape): the text is either the enum formatter's output or the value printed by the harness token printer with derived copulas (instance / property / instance-property / retrospective equivalence), padded intervals and decorated placeholders, spaced like the formatter's templates; oracle: enum parser and lexical-parse+fold both succeed, agree, and equal the source value's canonical form; non-trivial = the value's term is a compound or statement; distinct = fingerprint of (format, text)",
+    rule: "cases = (format, well-formed enum value, source, tape): the text is the enum formatter's output, the lexical formatter's output for the arity-valid lexical mirror of the value (numbers also spelt `1.0` / `.5`, fixed stamps `+5`), or the value printed by the harness token printer with derived copulas (instance / property / instance-property / retrospective equivalence), padded intervals and decorated placeholders, spaced like the formatter's templates; oracle: enum parser and lexical-parse+fold both succeed, agree, and equal the source value's canonical form; non-trivial = the value's term is a compound or statement; distinct = fingerprint of (format, text)",
     assumptions: &[
         "the sugar printer is trusted only when its plain rendition reproduces the formatter's output exactly for the same instance (otherwise the case is counted inconclusive)",
         "canonical form as in C01",
